@@ -517,12 +517,25 @@ func (m *Machine) formatDecimal(vv, basev value, signed bool) value {
 		}
 	}
 	name := m.freshName("fmtdec")
-	sum := tConst(64, 0)
+	// do the arithmetic at the narrowest width that holds 10^k - 1 (mag < 10^k on this path)
+	W := 64
+	switch {
+	case k <= 2:
+		W = 8
+	case k <= 4:
+		W = 16
+	case k <= 9:
+		W = 32
+	}
+	if W < 64 {
+		mag = tExtract(W-1, 0, mag)
+	}
+	sum := tConst(W, 0)
 	digits := make([]Scalar, k)
 	for j := 0; j < k; j++ {
 		d := tVar(fmt.Sprintf("%s_d%d", name, j), 8)
 		m.pc = append(m.pc, tCmp("bvule", d, tConst(8, 9)))
-		sum = tBV("bvadd", sum, tBV("bvmul", tZext(d, 64), tConst(64, pow10[j])))
+		sum = tBV("bvadd", sum, tBV("bvmul", tZext(d, W), tConst(W, pow10[j])))
 		digits[k-1-j] = fromTerm(tBV("bvadd", d, tConst(8, '0')))
 	}
 	m.pc = append(m.pc, tEq(sum, mag))
